@@ -229,6 +229,22 @@ def written_case(rng):
     case = c05.random_case(rng)
     from cfinterface.components.defaultregister import DefaultRegister  # noqa
 
+    if rng.random() < 0.4:
+        # data that is not yet at the resolution of its field: F-notation floats just below a power of ten
+        # (99.96, -9.996, 999.5 ...) whose text needs fewer decimals than declared and carries into one more
+        # integer digit when rounded there; the value still fits (its 0-decimal text has at most `size` columns)
+        for e in case["elems"]:
+            if "cls" not in e:
+                continue
+            fds = case["regs"][e["cls"]]["fields"]
+            for i, fd in enumerate(fds):
+                if fd["k"] == "flt" and codec.dec_str(fd["fmt"]) in "Ff" and i < len(e["data"]) and e["data"][i] is not None and rng.random() < 0.6:
+                    neg = rng.random() < 0.3
+                    kmax = fd["size"] - 1 - (1 if neg else 0)
+                    if kmax < 1:
+                        continue
+                    x = 10.0 ** rng.randrange(1, kmax + 1) - rng.choice([0.5, 0.05, 0.04, 0.004, 0.0004, 0.00004])
+                    e["data"][i] = codec.enc_val(-x if neg else x)
     try:
         RF, classes, f = c05.build_file(case)
         buf = StringIO()
